@@ -146,10 +146,12 @@ func zzC15Drive(objs string, rsize int) {
 	zzReach("end")
 }
 
-// zzC15Report: SimReport.Init. kinds (concrete, one per rule): 0 absolute get, 1 periodic get, 2 absolute show,
-// 3 periodic show, 4 another kind; ticks and suspended flags are solver variables. For ANY tick q and every object o: table[q] names o exactly when a non-suspended rule of that kind names o
-// at q; the reported/shown location is o's, its name is o, its type is the Extra of the first non-suspended rule
-// that registered it ("unsigned" when empty).
+// zzC15Report: SimReport.Init. Rule kinds are concrete, one per rule: kind = 2*timing + side with timing 0 absolute,
+// 1 periodic, 2 on exit, 3 on valid and side 0 get, 1 show; kind 8 is another kind of rule. Ticks and suspended flags
+// are solver variables. For ANY tick q and every object o: a tick table names o at q exactly when a non-suspended
+// rule of that kind names o at q; an event table holds o exactly when a non-suspended event rule of that kind names
+// it (on valid: and o has a valid signal), pointing at o's registration (and at its valid signal); the registered
+// location is o's, its name is o, its type is the Extra of the first non-suspended rule that registered it.
 func zzC15Report(objs string, kinds string, rsize int) {
 	bm := new(Bondmachine)
 	bm.Rsize = uint8(rsize)
@@ -169,27 +171,24 @@ func zzC15Report(objs string, kinds string, rsize int) {
 	sb := new(simbox.Simbox)
 	ticks := make([]uint64, n)
 	susp := make([]bool, n)
-	kind := make([]uint8, n)
+	kind := make([]int, n)
 	extra := make([]string, n)
+	timecs := []uint8{simbox.TIMEC_ABS, simbox.TIMEC_REL, simbox.TIMEC_ON_EXIT, simbox.TIMEC_ON_VALID}
 	for k := 0; k < n; k++ {
 		ticks[k] = zzNondetU64("tick")
 		susp[k] = zzNondetBool("suspended")
-		kv, _ := strconv.Atoi(strings.Split(kinds, ",")[k])
-		kind[k] = uint8(kv) // concrete per configuration: the registration lists then only depend on the suspended flags
+		kind[k], _ = strconv.Atoi(strings.Split(kinds, ",")[k])
 		if k%2 == 1 {
 			extra[k] = "hex"
 		}
 		r := simbox.Rule{Tick: ticks[k], Object: names[k], Extra: extra[k], Suspended: susp[k]}
-		switch kind[k] {
-		case 0:
-			r.Timec, r.Action = simbox.TIMEC_ABS, simbox.ACTION_GET
-		case 1:
-			r.Timec, r.Action = simbox.TIMEC_REL, simbox.ACTION_GET
-		case 2:
-			r.Timec, r.Action = simbox.TIMEC_ABS, simbox.ACTION_SHOW
-		case 3:
-			r.Timec, r.Action = simbox.TIMEC_REL, simbox.ACTION_SHOW
-		default:
+		if kind[k] < 8 {
+			r.Timec = timecs[kind[k]/2]
+			r.Action = simbox.ACTION_GET
+			if kind[k]%2 == 1 {
+				r.Action = simbox.ACTION_SHOW
+			}
+		} else {
 			r.Timec, r.Action = simbox.TIMEC_ABS, simbox.ACTION_SET
 		}
 		sb.Rules = append(sb.Rules, r)
@@ -209,7 +208,8 @@ func zzC15Report(objs string, kinds string, rsize int) {
 		seen[o] = true
 		loc, lerr := vm.GetElementLocation(o)
 		zzAssert("object-exists", lerr == nil)
-		for side := 0; side <= 1; side++ { // 0: reportables (kinds 0,1), 1: showables (kinds 2,3)
+		vloc, verr := vm.GetElementLocation(o + "v")
+		for side := 0; side <= 1; side++ { // 0: reportables (get rules), 1: showables (show rules)
 			ptrs, pnames, ptypes := sr.Reportables, sr.ReportablesNames, sr.ReportablesTypes
 			if side == 1 {
 				ptrs, pnames, ptypes = sr.Showables, sr.ShowablesNames, sr.ShowablesTypes
@@ -223,7 +223,7 @@ func zzC15Report(objs string, kinds string, rsize int) {
 			registered := false
 			wantType := ""
 			for k := n - 1; k >= 0; k-- {
-				if names[k] == o && !susp[k] && int(kind[k])/2 == side && kind[k] <= 3 {
+				if names[k] == o && !susp[k] && kind[k] < 8 && kind[k]%2 == side {
 					registered = true
 					wantType = extra[k]
 					if wantType == "" {
@@ -240,33 +240,59 @@ func zzC15Report(objs string, kinds string, rsize int) {
 			} else {
 				zzAssert("nothing-registered-without-a-rule", ipos == -1)
 			}
-			for per := 0; per <= 1; per++ {
-				kk := uint8(side*2 + per)
+			for timing := 0; timing <= 3; timing++ {
+				kk := 2*timing + side
 				have := false
 				for k := 0; k < n; k++ {
-					if names[k] == o && !susp[k] && kind[k] == kk && ticks[k] == q {
+					if names[k] == o && !susp[k] && kind[k] == kk && (timing >= 2 || ticks[k] == q) {
 						have = true
 					}
 				}
-				present := false
-				if side == 0 {
-					tab := sr.AbsGet
-					if per == 1 {
-						tab = sr.PerGet
+				switch timing {
+				case 0, 1:
+					present := false
+					if side == 0 {
+						tab := sr.AbsGet
+						if timing == 1 {
+							tab = sr.PerGet
+						}
+						if row, ok := tab[q]; ok && ipos >= 0 {
+							_, present = row[ipos]
+						}
+					} else {
+						tab := sr.AbsShow
+						if timing == 1 {
+							tab = sr.PerShow
+						}
+						if row, ok := tab[q]; ok && ipos >= 0 {
+							_, present = row[ipos]
+						}
 					}
-					if row, ok := tab[q]; ok && ipos >= 0 {
-						_, present = row[ipos]
+					zzAssert("table-names-the-object-exactly-when-a-rule-does", present == have)
+				default:
+					ev := simEvent{event: EVENTONEXIT, object: o}
+					if timing == 3 {
+						ev.event = EVENTONVALID
 					}
-				} else {
-					tab := sr.AbsShow
-					if per == 1 {
-						tab = sr.PerShow
+					tab := sr.EventGet
+					if side == 1 {
+						tab = sr.EventShow
 					}
-					if row, ok := tab[q]; ok && ipos >= 0 {
-						_, present = row[ipos]
+					ptr, present := tab[ev]
+					if timing == 3 && verr != nil {
+						have = false // an object without a valid signal cannot have an on-valid event
+					}
+					zzAssert("event-table-holds-the-object-exactly-when-a-rule-does", present == have)
+					if present && have {
+						zzAssert("event-points-at-the-object's-registration", ptr[0] == ipos)
+						if timing == 2 {
+							zzAssert("exit-event-needs-no-signal", ptr[1] == -1)
+						} else {
+							// GetElementLocation wraps the address of a flag in a fresh interface cell at every call: compare the wrapped addresses
+							zzAssert("valid-event-points-at-the-valid-signal", ptr[1] >= 0 && ptr[1] < len(sr.EventData) && *sr.EventData[ptr[1]] == *vloc)
+						}
 					}
 				}
-				zzAssert("table-names-the-object-exactly-when-a-rule-does", present == have)
 			}
 		}
 	}
